@@ -34,9 +34,10 @@ type e2eReq struct {
 }
 
 type e2eServer struct {
-	mu   sync.Mutex
-	reqs map[string][]e2eReq // by X-Vegeta-Seq
-	srv  *httptest.Server
+	mu     sync.Mutex
+	reqs   map[string][]e2eReq      // by X-Vegeta-Seq
+	byPath map[string][]http.Header // request headers by URL path
+	srv    *httptest.Server
 }
 
 func e2eBody(n int) []byte {
@@ -48,11 +49,12 @@ func e2eBody(n int) []byte {
 }
 
 func newE2EServer() *e2eServer {
-	es := &e2eServer{reqs: map[string][]e2eReq{}}
+	es := &e2eServer{reqs: map[string][]e2eReq{}, byPath: map[string][]http.Header{}}
 	es.srv = httptest.NewServer(http.HandlerFunc(func(w http.ResponseWriter, r *http.Request) {
 		body, _ := io.ReadAll(r.Body)
 		es.mu.Lock()
 		seq := r.Header.Get("X-Vegeta-Seq")
+		es.byPath[r.URL.Path] = append(es.byPath[r.URL.Path], r.Header.Clone())
 		es.reqs[seq] = append(es.reqs[seq], e2eReq{method: r.Method, path: r.URL.Path, host: r.Host, attack: strings.Join(r.Header["X-Vegeta-Attack"], ","),
 			body: body, te: append([]string(nil), r.TransferEncoding...), custom: r.Header["X-E2e"], cookie: append([]string(nil), r.Header["Cookie"]...)})
 		es.mu.Unlock()
@@ -155,6 +157,10 @@ func runE2E(c *run.Ctx, s *kit.Summary) {
 	es := newE2EServer()
 	defer es.srv.Close()
 	runRealSession(s, es)
+	runE2ELazy(c, s, es)
+	es.mu.Lock()
+	es.reqs, es.byPath = map[string][]e2eReq{}, map[string][]http.Header{}
+	es.mu.Unlock()
 	runs := []e2eRun{
 		{name: "maxbody10_name_chunked", args: []string{"-max-body", "10", "-name", "e2e-a", "-chunked"}, path: "/b/1000", method: "POST", body: "payload", maxBody: 10, attack: "e2e-a", chunked: true, redirects: 10},
 		{name: "defaults_follow3", args: nil, path: "/r/3", method: "GET", maxBody: -1, redirects: 10},
